@@ -117,14 +117,14 @@ def check(cx):
                 continue
             n += 1
             l = op_local(c.args[sinks[c.callee]])
-            cl = (f.dep_closure(l) | {l}) if l is not None else set()
-            srcs = {x.callee for x in f.calls() if op_local({"c": x.dst}) in cl}
-            params = {a for a in range(1, f.nargs + 1) if a in cl and f.locals[a] == "u64"}
-            good = bool(srcs & ID_OK or params) and not (srcs & ID_BAD)
+            near = f.nearest_calls(l) if l is not None else set()
+            srcs = {x for k, x in near if k == "call"}
+            params = {x for k, x in near if k == "param" and f.locals[x] == "u64"}
+            good = bool(srcs & ID_OK or params) and not (srcs - ID_OK) and not any(k == "const" for k, _ in near)
             cx.verdict(good, r3, "%s@%s#%d" % (c.callee.rsplit("::", 1)[-1], root, n), c.where(),
                        "id from %s" % (sorted(srcs & ID_OK) or "transaction_id parameter"),
                        "the transaction id stamped here comes from %s: the entries' visibility is tied to another "
-                       "transaction's fate" % (sorted(srcs & ID_BAD) or "neither the context nor a parameter"))
+                       "transaction's fate" % (sorted(srcs - ID_OK) or "neither the context nor a parameter"))
 
     # ---- C15.5 ALTER variants --------------------------------------------------------------------------
     r5 = cx.rule("C15.5", "TAB: every AlterActionInstr variant has an arm in apply_alter_action and in try_inverse_with; "
